@@ -141,7 +141,11 @@ theorem normalised_sort_is_chronological (u v : UTC) (hu : InRange u) (hv : InRa
   rw [fmtYear_of_range hu.y0 hu.y1, fmtYear_of_range hv.y0 hv.y1]
   simp only [List.append_assoc]
   rcases h with h | ⟨e, h⟩
-  · exact lex_of_lt_same_len (pad4_lt (by have := hu.y0; have := hv.y1; omega) (by have := hv.y0; have := hv.y1; omega)) rfl _ _
+  · have h0 := hu.y0
+    have h1 := hv.y1
+    have ha : u.year.natAbs < v.year.natAbs := by omega
+    have hb : v.year.natAbs < 10000 := by omega
+    exact lex_of_lt_same_len (pad4_lt ha hb) rfl _ _
   rw [e]
   refine lex_append_left _ (lex_append_left _ ?_)
   rcases h with h | ⟨e, h⟩
@@ -166,7 +170,7 @@ theorem normalised_sort_is_chronological (u v : UTC) (hu : InRange u) (hv : InRa
   exact lex_append_left _ (fracPart_lt h hv.ns)
 
 /-- outside the year range the layout is not order preserving: year −1 prints as "-0001…" which
-sorts after "0000…" ('-' = 0x2D … wait '-' < '0', but year 10000 prints five digits) -/
+does not have the fixed width, and year 10000 prints five digits and sorts before 9999 -/
 theorem year_10000_sorts_first :
     formatCodes { year := 10000, month := 1, day := 1, hour := 0, min := 0, sec := 0, nanos := 0 } <
     formatCodes { year := 9999, month := 12, day := 31, hour := 23, min := 59, sec := 59, nanos := 0 } := by
